@@ -139,12 +139,19 @@ def concrete(rng, dim=None, variant=None, cls=None, profile=None, same_count=Non
     u = lambda k: (rng.uniform(0, 10, size=(dim, k)), "unstructured")      # noqa
     poss = [u(n0), u(n0), u(n2), (tuple(np.sort(rng.uniform(0, 10, size=int(rng.randint(2, 4)))) for _ in range(dim)), "structured"),
             u(n2), u(n0)]
+    # measurement errors given at construction (a float / a per-point array, exact=False) in three of ten setups: every
+    # set_condition of the histories omits cond_err — new values, the argument-less refresh — and has to keep them in force
+    # (the freshly built reference object is given the same errors)
+    q = rng.rand()
+    err = float(rng.choice([0.0625, 0.25])) if q < 0.15 else (rng.randint(1, 5, n) / 16.0 if q < 0.3 else None)
     return dict(dim=dim, cp=cp, conds=conds, means=means, poss=poss, cls=cls, variant=variant, profile=profile,
-                vary=sorted(vary), mparams=mparams)
+                vary=sorted(vary), mparams=mparams, err=err)
 
 
 def describe(cv):
-    return dict(variant=cv["variant"], dim=cv["dim"], profile=cv["profile"], vary=cv["vary"], **{"class": cv["cls"]})
+    e = cv.get("err")
+    return dict(variant=cv["variant"], dim=cv["dim"], profile=cv["profile"], vary=cv["vary"],
+                cond_err="nugget" if e is None else ("float" if isinstance(e, float) else "array"), **{"class": cv["cls"]})
 
 
 def make_model(cv, model_id):
@@ -162,17 +169,19 @@ def build(cv, cond, model_id, mean_id, seed=SEED):
     import gstools as gs
     model = make_model(cv, model_id)
     v = cv["variant"]
+    e = cv.get("err")
+    ekw = {} if e is None else {"cond_err": e if isinstance(e, float) else np.array(e)}
     if v == "Simple":
-        kr = gs.krige.Simple(model, cv["cp"], cv["conds"][cond], mean=cv["means"][mean_id])
+        kr = gs.krige.Simple(model, cv["cp"], cv["conds"][cond], mean=cv["means"][mean_id], **ekw)
     elif v == "Ordinary":
-        kr = gs.krige.Ordinary(model, cv["cp"], cv["conds"][cond], trend=cv["means"][mean_id])
+        kr = gs.krige.Ordinary(model, cv["cp"], cv["conds"][cond], trend=cv["means"][mean_id], **ekw)
     elif v == "ExtDrift":
-        kr = gs.krige.ExtDrift(model, cv["cp"], cv["conds"][cond], ext_fun(*cv["cp"]), trend=cv["means"][mean_id])
+        kr = gs.krige.ExtDrift(model, cv["cp"], cv["conds"][cond], ext_fun(*cv["cp"]), trend=cv["means"][mean_id], **ekw)
     elif v == "Detrended":
-        kr = gs.krige.Detrended(model, cv["cp"], cv["conds"][cond], trend_fun(cv["means"][mean_id]))
+        kr = gs.krige.Detrended(model, cv["cp"], cv["conds"][cond], trend_fun(cv["means"][mean_id]), **ekw)
     else:
         drift = {"Universal": "linear", "Universal-quadratic": "quadratic", "Universal-callables": [_drift_a, _drift_b]}[v]
-        kr = gs.krige.Universal(model, cv["cp"], cv["conds"][cond], drift_functions=drift, trend=cv["means"][mean_id])
+        kr = gs.krige.Universal(model, cv["cp"], cv["conds"][cond], drift_functions=drift, trend=cv["means"][mean_id], **ekw)
     return gs.CondSRF(kr, seed=seed, mode_no=64)
 
 
@@ -671,7 +680,7 @@ def correspondence(ctx):
     res = run_driver(opsl)
     dis, distinct = [], set()
     dist = {"calls": 0, "reused": 0, "stale_predicted": 0, "ValueError": 0, "mixed_runs_predicted": 0, "names_compared": 0,
-            "max_stored": 0, "ops": {}, "profiles": {}, "classes": {}, "variants": {}, "pos_changes_with_stored_fields": 0,
+            "max_stored": 0, "ops": {}, "profiles": {}, "classes": {}, "variants": {}, "cond_err": {}, "pos_changes_with_stored_fields": 0,
             "uncond_compared": 0, "seeds_compared": 0, "calls_keeping_seed": 0, "calls_keeping_seed_after_model_change": 0}
     for ci, ((cv, ops, c0, m0, mu0), r) in enumerate(zip(cases, res[:H])):
         for o in ops:
@@ -679,6 +688,7 @@ def correspondence(ctx):
         dist["profiles"][cv["profile"]] = dist["profiles"].get(cv["profile"], 0) + 1
         dist["classes"][cv["cls"]] = dist["classes"].get(cv["cls"], 0) + 1
         dist["variants"][cv["variant"]] = dist["variants"].get(cv["variant"], 0) + 1
+        dist["cond_err"][describe(cv)["cond_err"]] = dist["cond_err"].get(describe(cv)["cond_err"], 0) + 1
         changed = False
         for o in ops:
             if o["k"] == "model":
@@ -860,6 +870,7 @@ def shrink(cv, ops, c0, m0, mu0, _fails=_fails):
 
 def case_dump(cv):
     return dict(describe(cv), cond_pos=cv["cp"].tolist(), conds=[c.tolist() for c in cv["conds"]], model_kwargs=cv["mparams"],
+                cond_err_values=None if cv.get("err") is None else np.asarray(cv["err"]).tolist(),
                 means=cv["means"], positions=[[np.asarray(a).tolist() for a in p[0]] for p in cv["poss"]],
                 mesh_types=[p[1] for p in cv["poss"]], seed=SEED, crf_slot_names=CRF_SLOTS, krige_slot_names=KRIGE_SLOTS)
 
@@ -1194,6 +1205,416 @@ def variant_search(ctx, n, report):
     return ev, stats
 
 
+# ---------------------------------------------------------------------------------------------------------------------------
+# wave 6: (1) the conditions of a CondSRF are the VALUES given at set_condition time; (4) partial set_condition calls keep every
+# other setting.  Both on the real objects against independent oracles (numpy solve on snapshots + an independently built SRF)
+# and against freshly built objects with the same visible state.
+W6_VARIANTS = ["Simple", "Ordinary", "Universal-linear", "ExtDrift", "Detrended"]
+
+
+def _w6_layout(rng, dim, n):
+    side = {1: 12, 2: 4, 3: 3}[dim]
+    grid = np.array(np.meshgrid(*([np.arange(side)] * dim), indexing="ij")).reshape(dim, -1)
+    idx = rng.choice(grid.shape[1], size=min(n, grid.shape[1]), replace=False)
+    return grid[:, idx] * 2.0 + rng.uniform(-0.3, 0.3, size=(dim, len(idx)))
+
+
+def _w6_krige(variant, model, cp, val, err, ext=None, mean=0.5, trend=None, normalizer=None, exact=False):
+    import gstools as gs
+    kw = dict(cond_err=err, exact=exact)
+    if variant == "Simple":
+        return gs.krige.Simple(model, cp, val, mean=mean, normalizer=normalizer, trend=trend, **kw)
+    if variant == "Ordinary":
+        return gs.krige.Ordinary(model, cp, val, normalizer=normalizer, trend=trend, **kw)
+    if variant == "Universal-linear":
+        return gs.krige.Universal(model, cp, val, "linear", normalizer=normalizer, trend=trend, **kw)
+    if variant == "ExtDrift":
+        return gs.krige.ExtDrift(model, cp, val, ext, normalizer=normalizer, trend=trend, **kw)
+    return gs.krige.Detrended(model, cp, val, trend_fun(0.4), **kw)
+
+
+def _w6_oracle(kc, variant, ref_model, T, cp, val, err, pos, ext_c=None, ext_t=None, mean=0.5, trend=None, norm=None, exact=False):
+    """independent kriging part: numpy solve of the system assembled from ref_model.covariance of hand-computed distances"""
+    tr_c, tr_t = (0.0, 0.0) if trend is None else (trend, trend)
+    mu = mean if variant == "Simple" else 0.0
+    if variant == "Detrended":
+        tr_c, tr_t = trend_fun(0.4)(*cp), trend_fun(0.4)(*pos)
+    z = kc.ref_normalize(norm, np.asarray(val, dtype=float) - tr_c) - mu
+    n = cp.shape[1]
+    e = np.full(n, float(ref_model.nugget)) if isinstance(err, str) else np.broadcast_to(np.asarray(err, dtype=float), (n,))
+    rows_c = list(cp) if variant == "Universal-linear" else []
+    rows_t = list(pos) if variant == "Universal-linear" else []
+    if variant == "ExtDrift":
+        rows_c, rows_t = [np.asarray(ext_c, dtype=float).reshape(-1)], [np.asarray(ext_t, dtype=float).reshape(-1)]
+    ref = kc.hand_solve(ref_model.covariance, float(ref_model.var) + float(ref_model.nugget), (T @ cp).T, (T @ pos).T, z, e,
+                        unbiased=variant not in ("Simple", "Detrended"), rows_c=rows_c, rows_t=rows_t, exact=exact)
+    ref.update(z=z, mu=mu, tr_t=tr_t)
+    return ref
+
+
+def aliasing_search(ctx, n, report):
+    """CondSRF on Krige objects built from caller-owned containers (float64 (dim, n) arrays, tuples / lists of 1-D arrays, 1-D arrays,
+       columns, Fortran order; value / error / drift arrays; controls: lists, integer arrays, data with a NaN); the caller modifies
+       its containers IN PLACE (scale, shift, noise, reorder) after a first field, WITHOUT set_condition; then fields at the stored
+       mesh (kriging cache reused), the same mesh given again and a new mesh: the public cond_val / cond_pos / cond_err / cond_ext_drift
+       are the values given when set, the field honours krige.cond_val at krige.cond_pos and the data as set (zero error), equals a
+       freshly built object made from the snapshot (same seed), and its kriging part equals the numpy solve of the snapshot"""
+    import gstools as gs
+    import krige_cases as kc
+    rng = np.random.RandomState(ctx.seed + 7177)
+    ev, stats = 0, {"cases": 0, "calls": 0, "containers": {}, "modified": {}}
+    with warnings.catch_warnings():
+        warnings.simplefilter("ignore")
+        for t in range(n):
+            variant = W6_VARIANTS[t % len(W6_VARIANTS)]
+            dim = int(rng.choice([1, 2, 2, 3], p=[0.3, 0.3, 0.3, 0.1]))
+            nc = int(rng.randint(3, 7)) + {"Universal-linear": dim + 1, "ExtDrift": 2}.get(variant, 0)
+            cp0 = _w6_layout(rng, dim, nc)
+            nc = cp0.shape[1]
+            val0 = rng.randn(nc)
+            witherr = bool(rng.rand() < 0.35)
+            err0 = rng.randint(1, 4, nc) / 16.0 if witherr else "nugget"
+            ext0 = ext_fun(*cp0) + 0.3 * rng.randn(nc) if variant == "ExtDrift" else None
+            cls = str(rng.choice(["Gaussian", "Exponential"]))
+            mpar = dict(dim=dim, var=float(rng.choice([0.5, 2.0])), len_scale=float(rng.choice([1.5, 3.0])))
+            anis, angles = [1.0] * (dim - 1), [0.0] * {1: 0, 2: 1, 3: 3}[dim]
+            if dim > 1 and rng.rand() < 0.5:
+                anis, angles = geometry(rng, dim, "aniso-rotated")
+                mpar.update(anis=anis, angles=angles)
+            mk = lambda: getattr(gs, cls)(**mpar)       # noqa
+            cfgm = dict(cond_pos=cp0, cond_val=val0, cond_err=err0, ext=None if ext0 is None else (ext0.reshape(1, -1), None), norm=None)
+            given, tag = kc.caller_arrays(rng, cfgm)
+            val0 = np.array(cfgm["cond_val"], dtype=float)      # (the integer control rounds the values)
+            snap = dict(cp=cp0.copy(), val=val0.copy(), err=err0 if isinstance(err0, str) else err0.copy(), ext=None if ext0 is None else ext0.copy())
+            desc = dict(variant=variant, dim=dim, model_class=cls, model_kwargs=mpar, cond_pos=cp0.tolist(), cond_val=val0.tolist(),
+                        cond_err=err0 if isinstance(err0, str) else err0.tolist(), ext_drift=None if ext0 is None else ext0.tolist(),
+                        containers=tag, history=[])
+            try:
+                kr = _w6_krige(variant, mk(), given["cond_pos"][0], given["cond_val"][0], given["cond_err"][0] if "cond_err" in given else "nugget",
+                               ext=given["ext_drift"][0] if "ext_drift" in given else None)
+                seed0 = int(rng.randint(1, 10**6))
+                crf = gs.CondSRF(kr, seed=seed0, mode_no=64)
+                meshes = [np.hstack([cp0, rng.uniform(-1, 7, size=(dim, 4))]), np.hstack([cp0, rng.uniform(-1, 7, size=(dim, 3))])]
+                ekw = lambda p: {"ext_drift": np.concatenate([snap["ext"], ext_fun(*p[:, nc:])])} if variant == "ExtDrift" else {}      # noqa
+                crf(meshes[0].copy(), seed=seed0, **ekw(meshes[0]))
+                desc["history"].append("crf(mesh 0, seed=%d)" % seed0)
+            except Exception as e:       # noqa
+                report({"key": "condsrf:caller-array-aliased:raised-at-construction", "what": "%s: %s" % (type(e).__name__, e), "case": desc})
+                continue
+            stats["cases"] += 1
+            stats["containers"][tag] = stats["containers"].get(tag, 0) + 1
+            roles = sorted(given)
+            chosen = [str(rng.choice(roles))] if rng.rand() < 0.7 else ([r for r in roles if rng.rand() < 0.6] or [roles[0]])
+            for r in chosen:
+                kd = str(rng.choice(["scale", "shift", "noise", "reorder"]))
+                for b in given[r][1]:
+                    kc._mutate(b, "scale" if (r == "cond_err" and kd in ("shift", "noise")) else kd, rng)
+                stats["modified"][r + ":" + kd] = stats["modified"].get(r + ":" + kd, 0) + 1
+                desc["history"].append("caller modifies its %s container in place (%s)" % (r, kd))
+            T = iso_matrix(dim, anis, angles)
+            cur = {"mid": 0}          # the mesh the object has stored
+
+            def visible():
+                bad = []
+                k = crf.krige
+                if not np.array_equal(np.asarray(k.cond_val, dtype=float).reshape(-1), snap["val"]):
+                    bad.append("cond_val")
+                if not np.array_equal(np.asarray(k.cond_pos, dtype=float).reshape(dim, -1), snap["cp"]):
+                    bad.append("cond_pos")
+                want_e = np.zeros(nc) if isinstance(snap["err"], str) else snap["err"]
+                if np.shape(k.cond_err) not in ((), (nc,)) or not np.array_equal(np.broadcast_to(np.asarray(k.cond_err, dtype=float), (nc,)), want_e):
+                    bad.append("cond_err")
+                if snap["ext"] is not None and not np.array_equal(np.asarray(k.cond_ext_drift, dtype=float).reshape(-1), snap["ext"]):
+                    bad.append("ext_drift")
+                return bad
+
+            def examine(suffix, plan):
+                nonlocal ev
+                vis = visible()
+                ev += 1
+                rl = "+".join(vis) if vis else "unobserved(" + "+".join(sorted(chosen)) + ")"
+                if vis:
+                    report({"key": "condsrf:caller-array-aliased:%s:visible-state%s" % (rl, suffix),
+                            "what": "after the caller modified its own arrays in place (no set_condition call) the public %s of crf.krige differ from "
+                                    "the values given when the conditions were set" % ", ".join(vis), "case": dict(desc, history=list(desc["history"]))})
+                for how, mid in plan:
+                    seed = int(rng.randint(1, 10**6))
+                    mid = cur["mid"] if how == "stored" else mid
+                    cur["mid"] = mid
+                    pos = meshes[mid]
+                    desc["history"].append("crf(%s, seed=%d)" % ("" if how == "stored" else "mesh %d" % mid, seed))
+                    case = dict(desc, history=list(desc["history"]), target_pos=pos.tolist())
+                    try:
+                        got = crf(seed=seed, **ekw(pos)) if how == "stored" else crf(pos.copy(), seed=seed, **ekw(pos))
+                        fresh = gs.CondSRF(_w6_krige(variant, mk(), snap["cp"].copy(), snap["val"].copy(),
+                                                     snap["err"] if isinstance(snap["err"], str) else snap["err"].copy(),
+                                                     ext=None if snap["ext"] is None else snap["ext"].copy()), seed=seed, mode_no=64)(pos.copy(), **ekw(pos))
+                    except Exception as e:       # noqa
+                        report({"key": "condsrf:caller-array-aliased:%s:raised%s" % (rl, suffix), "what": "%s: %s" % (type(e).__name__, e), "case": case})
+                        continue
+                    ev += 3
+                    stats["calls"] += 1
+                    if isinstance(snap["err"], str):       # zero measurement error: the data as set are honoured ...
+                        if not np.allclose(got[:nc], snap["val"], atol=1e-6 * (1 + np.abs(snap["val"]).max())):
+                            report({"key": "condsrf:caller-array-aliased:%s:data-not-honoured%s" % (rl, suffix),
+                                    "what": "the conditioned field does not honour the data as they were when set (the caller modified %s in place "
+                                            "afterwards, no set_condition)" % ", ".join(sorted(chosen)), "case": case,
+                                    "max_abs_diff": float(np.max(np.abs(got[:nc] - snap["val"])))})
+                        # ... and so are the conditions the object itself reports
+                        k = crf.krige
+                        rp, rv = np.asarray(k.cond_pos, dtype=float).reshape(dim, -1), np.asarray(k.cond_val, dtype=float).reshape(-1)
+                        if rp.shape != (dim, nc) or not np.allclose(rp, pos[:, :nc]) or not np.allclose(got[:nc], rv, atol=1e-6 * (1 + np.abs(rv).max())):
+                            report({"key": "condsrf:caller-array-aliased:%s:reported-conditions-not-honoured%s" % (rl, suffix),
+                                    "what": "the conditioned field does not equal krige.cond_val at krige.cond_pos", "case": case})
+                    if not (np.shape(got) == np.shape(fresh) and np.allclose(got, fresh, atol=1e-9 * (1 + np.abs(fresh).max()))):
+                        report({"key": "condsrf:caller-array-aliased:%s:field%s" % (rl, suffix),
+                                "what": "the conditioned field differs from the one of a freshly built object made from a snapshot of the conditions as "
+                                        "they were when set (same model, same seed)", "case": case,
+                                "max_abs_diff": float(np.max(np.abs(got - fresh))) if np.shape(got) == np.shape(fresh) else None})
+                    ref = _w6_oracle(kc, variant, mk(), T, snap["cp"], snap["val"], snap["err"], pos, ext_c=snap["ext"],
+                                     ext_t=ekw(pos).get("ext_drift"))
+                    if ref["cond"] <= 1e7:
+                        own_k, own_v = np.asarray(crf["raw_krige"]), np.asarray(crf.krige["krige_var"])
+                        tol = 1e-9 * max(ref["cond"], 1) * (1 + np.abs(ref["raw"]).max())
+                        if not (np.allclose(own_k, ref["raw"], atol=tol) and np.allclose(own_v, ref["var"], atol=tol)):
+                            report({"key": "condsrf:caller-array-aliased:%s:estimate%s" % (rl, suffix),
+                                    "what": "raw kriging field / kriging variance behind the conditioned field differ from the numpy solve of the conditions "
+                                            "as they were when set", "case": case, "condition_number": ref["cond"],
+                                    "max_abs_diff_estimate": float(np.max(np.abs(own_k - ref["raw"]))), "max_abs_diff_variance": float(np.max(np.abs(own_v - ref["var"])))})
+
+            examine("", [("stored", 0), ("given", 0), ("given", 1)][: int(rng.randint(2, 4))] if rng.rand() < 0.7 else [("given", 1), ("stored", 1)])
+            if rng.rand() < 0.4:
+                try:
+                    crf.krige.set_condition()
+                    desc["history"].append("crf.krige.set_condition()")
+                except Exception as e:       # noqa
+                    report({"key": "condsrf:caller-array-aliased:raised-at-refresh", "what": "%s: %s" % (type(e).__name__, e), "case": desc})
+                    continue
+                examine("-after-refresh", [("stored", 1) if rng.rand() < 0.5 else ("given", 0)])
+    return ev, stats
+
+
+def partial_condition_search(ctx, n, report):
+    """objects built with explicit settings — measurement errors (float / per-point array, exact=False), external drift, normalizer,
+       trend / mean — then PARTIAL set_condition calls: new values alone, new positions + values (+ drift), the argument-less refresh
+       after an in-place model change, fit_normalizer alone, new drift alone, new errors alone, values + errors.  Every setting that
+       the call does not name must stay in force: after each step the conditioned field (same seed) equals a freshly built object
+       with the same visible state and trend + denormalize(mean + krige + sqrt(kvar/var) * SRF(model, seed)) with krige / kvar from a
+       numpy solve carrying the CURRENT errors on the diagonal; krige.cond_err reports them; noisy observations are not interpolated"""
+    import gstools as gs
+    import krige_cases as kc
+    rng = np.random.RandomState(ctx.seed + 7277)
+    ev, stats = 0, {"cases": 0, "steps": {}, "err_kinds": {}, "normalizers": {}, "compared": 0, "ill_conditioned_skipped": 0}
+    with warnings.catch_warnings():
+        warnings.simplefilter("ignore")
+        for t in range(n):
+            variant = W6_VARIANTS[t % len(W6_VARIANTS)]
+            dim = int(rng.choice([1, 2, 2, 3], p=[0.3, 0.3, 0.3, 0.1]))
+            cls = str(rng.choice(["Gaussian", "Exponential"]))
+            S = dict(var=float(rng.choice([0.5, 2.0])), L=float(rng.choice([1.5, 3.0])), mean=float(rng.choice([0.0, 0.5])),
+                     trend=None if (variant in ("Simple", "Detrended") or rng.rand() < 0.5) else float(rng.choice([0.3, -0.4])),
+                     norm=None)
+            anis, angles = [1.0] * (dim - 1), [0.0] * {1: 0, 2: 1, 3: 3}[dim]
+            if dim > 1 and rng.rand() < 0.4:
+                anis, angles = geometry(rng, dim, "aniso-rotated")
+            if variant != "Detrended" and rng.rand() < 0.5:
+                S["norm"] = dict(kind=str(rng.choice(["LogNormal", "BoxCox"])), lmbda=float(rng.choice([0.5, 1.5])), shift=0.0)
+                if S["norm"]["kind"] == "LogNormal":
+                    S["norm"]["lmbda"] = 1.0
+            ekind = str(rng.choice(["float", "array", "array", "nugget"], p=[0.3, 0.3, 0.3, 0.1]))
+
+            def mkmodel():
+                kw = dict(dim=dim, var=S["var"], len_scale=S["L"])
+                if dim > 1:
+                    kw.update(anis=anis, angles=angles)
+                return getattr(gs, cls)(**kw)
+
+            def new_pos(k=None):
+                k = int(rng.randint(3, 7)) + {"Universal-linear": dim + 1, "ExtDrift": 2}.get(variant, 0) if k is None else k
+                return _w6_layout(rng, dim, k)
+
+            def new_val(cp):
+                g = 0.7 * rng.randn(cp.shape[1])
+                tr = trend_fun(0.4)(*cp) if variant == "Detrended" else (S["trend"] or 0.0)
+                mu = S["mean"] if variant == "Simple" else 0.0
+                if S["norm"] is None:
+                    return tr + mu + 1.5 * g
+                lo, hi = kc.gauss_range(S["norm"])
+                return tr + kc.ref_denormalize(S["norm"], np.clip(mu + g, lo, hi))
+
+            def new_err(k):
+                if ekind == "float":
+                    return float(rng.choice([0.0625, 0.125, 0.25]))
+                if ekind == "array":
+                    return rng.randint(1, 5, k) / 16.0
+                return "nugget"
+
+            def new_ext(cp):
+                return ext_fun(*cp) + 0.3 * rng.randn(cp.shape[1])
+
+            def mkkrige(model):
+                return _w6_krige(variant, model, S["cp"].copy(), S["val"].copy(), S["err"] if isinstance(S["err"], (str, float)) else S["err"].copy(),
+                                 ext=None if S["ext"] is None else S["ext"].copy(), mean=S["mean"], trend=S["trend"],
+                                 normalizer=kc.make_normalizer(S["norm"]))
+
+            S["cp"] = new_pos()
+            nc = S["cp"].shape[1]
+            S["val"], S["err"], S["ext"] = new_val(S["cp"]), new_err(nc), (new_ext(S["cp"]) if variant == "ExtDrift" else None)
+            desc = dict(variant=variant, dim=dim, model_class=cls, anis=anis, angles=angles, error_kind=ekind, history=[])
+            stats["err_kinds"][ekind] = stats["err_kinds"].get(ekind, 0) + 1
+            nk = "none" if S["norm"] is None else S["norm"]["kind"]
+            stats["normalizers"][nk] = stats["normalizers"].get(nk, 0) + 1
+
+            def state():
+                return {k: (v.tolist() if isinstance(v, np.ndarray) else v) for k, v in S.items()}
+            try:
+                seed0 = int(rng.randint(1, 10**6))
+                crf = gs.CondSRF(mkkrige(mkmodel()), seed=seed0, mode_no=64)
+                desc["history"].append("built: " + repr(state()))
+            except Exception as e:       # noqa
+                report({"key": "condsrf:partial-set-condition:raised-at-construction", "what": "%s: %s" % (type(e).__name__, e), "case": desc})
+                continue
+            stats["cases"] += 1
+            have_pos = False
+
+            def compare(step):
+                nonlocal ev, have_pos
+                cp, nc_ = S["cp"], S["cp"].shape[1]
+                seed = int(rng.randint(1, 10**6))
+                stored = have_pos and step not in ("pos+val",) and rng.rand() < 0.4
+                if not stored:
+                    compare.pos = np.hstack([cp, rng.uniform(-1, 7, size=(dim, 4))])
+                pos = compare.pos
+                if pos.shape[0] != dim:
+                    return
+                ekw = {"ext_drift": np.concatenate([S["ext"], ext_fun(*pos[:, nc_:])])} if variant == "ExtDrift" and pos.shape[1] == nc_ + 4 else {}
+                if variant == "ExtDrift" and not ekw:
+                    ekw = {"ext_drift": ext_fun(*pos)}
+                desc["history"].append("crf(%sseed=%d)" % ("" if stored else "targets, ", seed))
+                case = dict(desc, history=list(desc["history"]), expected_state=state(), target_pos=pos.tolist())
+                try:
+                    got = crf(seed=seed, **ekw) if stored else crf(pos.copy(), seed=seed, **ekw)
+                    have_pos = True
+                    fresh_o = gs.CondSRF(mkkrige(mkmodel()), seed=seed, mode_no=64)
+                    fresh = fresh_o(pos.copy(), **ekw)
+                except Exception as e:       # noqa
+                    report({"key": "condsrf:partial-set-condition:%s:raised" % step, "what": "%s: %s" % (type(e).__name__, e), "case": case})
+                    return
+                ev += 2
+                k = crf.krige
+                want_e = np.zeros(nc_) if isinstance(S["err"], str) else np.broadcast_to(np.asarray(S["err"], dtype=float), (nc_,))
+                if np.shape(k.cond_err) not in ((), (nc_,)) or not np.array_equal(np.broadcast_to(np.asarray(k.cond_err, dtype=float), (nc_,)), want_e):
+                    report({"key": "condsrf:partial-set-condition:%s:cond_err-not-kept" % step,
+                            "what": "krige.cond_err after the partial set_condition call is not the measurement error in force (the one given at "
+                                    "construction / by the last call that named cond_err)", "case": case,
+                            "got": np.asarray(k.cond_err, dtype=float).tolist(), "want": want_e.tolist()})
+                if S["ext"] is not None and not np.array_equal(np.asarray(k.cond_ext_drift, dtype=float).reshape(-1), S["ext"]):
+                    report({"key": "condsrf:partial-set-condition:%s:ext_drift-not-kept" % step,
+                            "what": "krige.cond_ext_drift after the partial set_condition call is not the external drift in force", "case": case})
+                if not (np.shape(got) == np.shape(fresh) and np.allclose(got, fresh, atol=1e-9 * (1 + np.abs(fresh).max()), equal_nan=True)):
+                    report({"key": "condsrf:partial-set-condition:%s:not-fresh" % step,
+                            "what": "after set_condition(%s) the conditioned field differs from the one of a freshly built object with the same visible "
+                                    "state (conditions, measurement errors, drift, normalizer, trend / mean, model; same seed)" % step, "case": case,
+                            "max_abs_diff": float(np.nanmax(np.abs(got - fresh))) if np.shape(got) == np.shape(fresh) else None})
+                ref_model = mkmodel()
+                ref = _w6_oracle(kc, variant, ref_model, iso_matrix(dim, anis, angles), cp, S["val"], S["err"], pos, ext_c=S["ext"],
+                                 ext_t=ekw.get("ext_drift"), mean=S["mean"], trend=S["trend"], norm=S["norm"])
+                if ref["cond"] > 1e7 or not np.all(np.isfinite(ref["z"])):
+                    stats["ill_conditioned_skipped"] += 1
+                    return
+                ev += 2
+                stats["compared"] += 1
+                own_k, own_v = np.asarray(crf["raw_krige"]), np.asarray(crf.krige["krige_var"])
+                tol = 1e-9 * max(ref["cond"], 1) * (1 + np.abs(ref["raw"]).max())
+                part_ok = np.allclose(own_k, ref["raw"], atol=tol) and np.allclose(own_v, ref["var"], atol=tol)
+                if not part_ok:
+                    dev_ref = float(np.max(np.abs(ref["raw"][:nc_] - ref["z"])))
+                    dev_own = float(np.max(np.abs(own_k[:nc_] - ref["z"])))
+                    dropped = bool(np.all(want_e > 0) and dev_ref > 1e-3 and dev_own < 1e-6 * (1 + dev_ref))
+                    report({"key": "condsrf:partial-set-condition:%s:%s" % (step, "errors-dropped" if dropped else "kriging-part"),
+                            "what": ("after set_condition(%s) the kriging part interpolates the noisy observations exactly: the measurement errors given "
+                                     "earlier are no longer in force" % step) if dropped else
+                                    ("after set_condition(%s) the raw kriging field / kriging variance differ from the numpy solve of the kriging system of "
+                                     "the current state (errors on the diagonal, drift, prepared data)" % step), "case": case, "condition_number": ref["cond"],
+                            "max_abs_diff_estimate": float(np.max(np.abs(own_k - ref["raw"]))), "max_abs_diff_variance": float(np.max(np.abs(own_v - ref["var"])))})
+                    return
+                raw = gs.SRF(ref_model, seed=seed, mode_no=64)(pos)
+                y = ref["mu"] + ref["raw"] + np.sqrt(ref["var"] / ref_model.var) * raw
+                want = ref["tr_t"] + kc.ref_denormalize(S["norm"], y)
+                # tolerance: the tolerance of the kriging parts on the normalised scale, carried through the local
+                # slope of denormalize (unbounded at the edge of its domain: points whose neighbourhood leaves the domain are skipped)
+                # (the kriging parts were compared within `tol` above; the square root carries a variance difference of that size near zero
+                #  variance — at the data — into the field with unbounded slope: that verified difference is granted, nothing else)
+                dy = 1e-9 * (1 + np.abs(y)) + tol + np.abs(np.sqrt(own_v) - np.sqrt(ref["var"])) / np.sqrt(ref_model.var) * np.abs(raw)
+                with np.errstate(all="ignore"):
+                    lo_, hi_ = kc.ref_denormalize(S["norm"], y - dy), kc.ref_denormalize(S["norm"], y + dy)
+                fin = np.isfinite(want) & np.isfinite(lo_) & np.isfinite(hi_)
+                slack = 2 * np.maximum(np.abs(hi_ - kc.ref_denormalize(S["norm"], y)), np.abs(lo_ - kc.ref_denormalize(S["norm"], y))) + 1e-9 * (1 + np.abs(want))
+                if not (np.array_equal(np.isfinite(want), np.isfinite(got)) and np.all(np.abs(got[fin] - want[fin]) <= slack[fin])):
+                    report({"key": "condsrf:partial-set-condition:%s:formula" % step,
+                            "what": "conditioned field is not trend + denormalize(mean + krige + sqrt(kvar/var) * SRF(model, seed)) of the current state",
+                            "case": case, "max_abs_diff": float(np.nanmax(np.abs(got - want)))})
+
+            compare("constructed")
+            for _ in range(int(rng.randint(1, 4))):
+                forms = ["val", "val", "pos+val", "refresh-after-model-change", "refresh"]
+                if S["norm"] is not None and S["norm"]["kind"] == "BoxCox":
+                    forms.append("fit_normalizer")
+                if variant == "ExtDrift":
+                    forms.append("ext")
+                if ekind != "nugget":
+                    forms += ["err", "val+err"]
+                step = str(rng.choice(forms))
+                stats["steps"][step] = stats["steps"].get(step, 0) + 1
+                kr = crf.krige
+                try:
+                    if step == "val":
+                        S["val"] = new_val(S["cp"])
+                        kr.set_condition(cond_val=S["val"].copy())
+                    elif step == "pos+val":
+                        S["cp"] = new_pos(S["cp"].shape[1] if isinstance(S["err"], np.ndarray) or rng.rand() < 0.5 else None)
+                        S["val"] = new_val(S["cp"])
+                        if isinstance(S["err"], np.ndarray) and S["cp"].shape[1] != len(S["err"]):
+                            raise RuntimeError("layout")
+                        if variant == "ExtDrift":
+                            S["ext"] = new_ext(S["cp"])
+                            kr.set_condition(S["cp"].copy(), S["val"].copy(), ext_drift=S["ext"].copy())
+                        elif rng.rand() < 0.5:
+                            kr.set_condition(S["cp"].copy(), S["val"].copy())
+                        else:
+                            kr.set_condition(cond_pos=tuple(S["cp"].copy()), cond_val=S["val"].copy())
+                    elif step == "refresh-after-model-change":
+                        S["L"] = float(rng.choice([x for x in (1.0, 1.5, 2.5, 3.0) if x != S["L"]]))
+                        crf.model.len_scale = S["L"]
+                        if rng.rand() < 0.5:
+                            S["var"] = float(rng.choice([0.75, 1.25]))
+                            crf.model.var = S["var"]
+                        kr.set_condition()
+                    elif step == "refresh":
+                        kr.set_condition()
+                    elif step == "fit_normalizer":
+                        kr.set_condition(fit_normalizer=True)
+                        S["norm"] = dict(S["norm"], lmbda=float(kr.normalizer.lmbda))       # (what the fit returns is C18's subject)
+                    elif step == "ext":
+                        S["ext"] = new_ext(S["cp"])
+                        kr.set_condition(ext_drift=S["ext"].copy())
+                    elif step == "err":
+                        S["err"] = new_err(S["cp"].shape[1])
+                        kr.set_condition(cond_err=S["err"] if isinstance(S["err"], float) else S["err"].copy())
+                    else:
+                        S["val"], S["err"] = new_val(S["cp"]), new_err(S["cp"].shape[1])
+                        kr.set_condition(cond_val=S["val"].copy(), cond_err=S["err"] if isinstance(S["err"], float) else S["err"].copy())
+                except RuntimeError:
+                    break
+                except Exception as e:       # noqa
+                    report({"key": "condsrf:partial-set-condition:%s:raised" % step, "what": "%s: %s" % (type(e).__name__, e),
+                            "case": dict(desc, history=list(desc["history"]), expected_state=state())})
+                    break
+                desc["history"].append("krige.set_condition: " + step)
+                compare(step)
+    return ev, stats
+
+
 def search(ctx, deep=False):
     import gstools as gs
     rng = np.random.RandomState(ctx.seed + 77)
@@ -1208,6 +1629,9 @@ def search(ctx, deep=False):
 
     ev_v, vstats = variant_search(ctx, ctx.scale(96, 960) * (2 if deep else 1), report)
     ev += ev_v
+    ev_a, astats = aliasing_search(ctx, ctx.scale(40, 400) * (2 if deep else 1), report)
+    ev_p, pstats = partial_condition_search(ctx, ctx.scale(45, 450) * (2 if deep else 1), report)
+    ev += ev_a + ev_p
 
     with warnings.catch_warnings():
         warnings.simplefilter("ignore")
@@ -1270,8 +1694,19 @@ def search(ctx, deep=False):
                         if not np.isclose(f[-1], 0.5 + raw[-1], atol=1e-8):
                             report({"key": "condsrf:far-field", "what": "far from the data the simple-kriging conditioned field is not mean + unconditional field",
                                     "case": dict(desc, seed=int(seed)), "got": float(f[-1]), "want": float(0.5 + raw[-1])})
-    return {"evaluations": ev, "violations": viol[:10],
-            "summary": "variant search %r: every kriging variant usable for conditioning (Simple, Ordinary, Universal with linear / quadratic / "
+    import krige_cases as kc
+    pristine = [v for v in viol if kc.ALIAS_PRISTINE.match(v["key"])]       # aliasing of cond_err / ext_drift arrays (finding AL1): always listed, last
+    viol = [v for v in viol if not kc.ALIAS_PRISTINE.match(v["key"])][:10] + pristine[:4]
+    return {"evaluations": ev, "violations": viol,
+            "summary": "caller-owned containers %r: CondSRF on Krige objects built from float64 arrays / tuples and lists of arrays / 1-D arrays / columns / "
+                       "Fortran order (controls: lists, integer arrays, NaN data), containers modified in place afterwards without set_condition; fields "
+                       "at the stored / the same / a new mesh vs the data as set, krige.cond_val at krige.cond_pos, a fresh object made from the snapshot, "
+                       "the numpy solve of the snapshot; public conditions unchanged; argument-less refresh.  partial set_condition %r: objects with "
+                       "explicit measurement errors (float / array), external drift, normalizer, trend / mean; set_condition naming only values / positions + "
+                       "values / nothing (refresh, also after an in-place model change) / fit_normalizer / drift / errors: every other setting stays in "
+                       "force (fresh object with the same visible state, numpy solve with the current errors on the diagonal + independent SRF, "
+                       "krige.cond_err, noisy observations not interpolated).  " % (astats, pstats) +
+                       "variant search %r: every kriging variant usable for conditioning (Simple, Ordinary, Universal with linear / quadratic / "
                        "callable drift, ExtDrift, Detrended, generic Krige with functional + external drift) x model geometry stratum (isotropic "
                        "model carrying rotation angles, anisotropic unrotated, both, neither; dim 1-3) x how it is reached (built / in-place "
                        "change + refresh / re-assignment + refresh after a first field) x calls with a new seed, the same seed, NO seed, "
